@@ -13,13 +13,13 @@ import (
 // Case is one lambda list with one argument vector (part A) or one built-in
 // function (part B).
 type Case struct {
-	Part    string   `json:"part"`
-	Block   string   `json:"block,omitempty"`
-	LL      *ref.LL  `json:"ll,omitempty"`
-	Args    []string `json:"args,omitempty"`
-	Ambient bool     `json:"ambient,omitempty"` // the caller has variables named like the non-required parameters
-	Split   int      `json:"split,omitempty"`   // leading arguments passed outside the spread list (apply, multiple-value-call)
-	Fn      string   `json:"fn,omitempty"`
+	Part  string   `json:"part"`
+	Block string   `json:"block,omitempty"`
+	LL    *ref.LL  `json:"ll,omitempty"`
+	Args  []string `json:"args,omitempty"`
+	Amb   string   `json:"amb,omitempty"`   // where a variable named like EVERY parameter is visible: let | caller | closure | global
+	Split int      `json:"split,omitempty"` // leading arguments passed outside the spread list (apply, multiple-value-call)
+	Fn    string   `json:"fn,omitempty"`
 }
 
 // part B cases are spread over the run (one every stride cases) so that they
@@ -60,11 +60,11 @@ func exec(x *fw.Ctx, c Case) {
 func init() {
 	fw.Register(fw.Spec[Case]{
 		ID: "C04",
-		Rule: "part A: (lambda list, argument vector, caller scope) judged sharply against the reference binder - no avoid set. " +
+		Rule: "part A: (lambda list, argument vector, scope in which same-named variables are visible) judged sharply against the reference binder - no avoid set. " +
 			"The 768 lambda lists of the shape grid (0-3 required x 0-2 optional x defaults x rest x 0-3 keys x defaults x aux) x EVERY argument vector of length 0..3 (quick) / 0..5 (thorough) over {integer, each declared keyword, a foreign keyword}; " +
 			"a seed-independent probe block of 48 boundary vectors per lambda list (too few/exact/too many positionals x key order, duplicates, keyword as value, unknown key, odd tail, non-keyword key, keyword naming a non-key parameter); " +
 			"the same probes on 176 variant lambda lists (computed init forms, init forms reading earlier parameters, bare-variable init forms, &allow-other-keys, &key without names, init forms naming a LATER parameter); " +
-			"calls made where the caller binds variables named like the parameters; every optional and key SUPPLIED with nil, t or a value equal to its own default; " +
+			"every grid lambda list called where a variable named like EVERY parameter (required ones included) is visible - in a let around the call, as a parameter of the calling function, in the let the function was created in (closure), as a defvar global - x 5 vectors (one/all required arguments missing, exact, all positionals, a key): a visible name is never an argument; every optional and key SUPPLIED with nil, t or a value equal to its own default; " +
 			"the traced form of every grid lambda list - each optional/key/aux init form is (c04-init N earlier...), a harness builtin with a recorded side effect that reads every earlier parameter - x 26 vectors, so that evaluation order, exactly-once, not-when-supplied and before-the-body are observed; " +
 			"then seeded vectors of length 0..8 (values: integers, nil, t, own default; a third on traced lambda lists). Every case is called through defun (evaluated and compiled), funcall of the symbol, funcall/apply of a lambda, a lambda in operator position and multiple-value-call. " +
 			"Oracle: too few/too many arguments must be a condition with the body marker not run; every parameter value and the trace of init-form side effects must equal the binder's; unknown keys are accepted and ignored (slip documents allow-other-keys as always true); " +
